@@ -1,5 +1,7 @@
 import PMH.Model.JaccardBoundsGen
 import PMH.Model.Exp01Gen
+import PMH.Model.PmhConstGen
+import PMH.Proofs.PmhLaws
 import PMH.Proofs.RealAnalysis
 /-!
 # The definitions GENERATED from the Rust source equal the hand-written models (at `ℝ`)
@@ -52,5 +54,30 @@ theorem exp01Sample_eq {G : Type} (e : Exp01 ℝ) (next : G → ℝ × G) (g : G
     Gen.exp01Sample realOps e next g = Exp01.sample realOps e next g := by
   unfold Gen.exp01Sample Exp01.sample
   simp only [exp01Loop_eq]
+
+/-! ### the constants of ProbMinHash, cut out of the constructors in the source (`Model/PmhConstGen.lean`) -/
+
+/-- the rate computed by `ProbMinHash3::new` is the `λ = ln(m/(m-1))` of the law theorems (`Laws.lam`) -/
+theorem pmh3Lambda_eq {m : ℕ} (hm : 1 ≤ m) : Gen.pmh3Lambda realOps m = Laws.lam m := by
+  unfold Gen.pmh3Lambda Laws.lam realOps
+  simp only [Nat.cast_sub hm, Nat.cast_one]
+
+theorem pmh3aLambda_eq {m : ℕ} (hm : 1 ≤ m) : Gen.pmh3aLambda realOps m = Laws.lam m := by
+  unfold Gen.pmh3aLambda Laws.lam realOps
+  simp only [Nat.cast_sub hm, Nat.cast_one]
+
+theorem pmh3aShaLambda_eq {m : ℕ} (hm : 1 ≤ m) : Gen.pmh3aShaLambda realOps m = Laws.lam m := by
+  unfold Gen.pmh3aShaLambda Laws.lam realOps
+  simp only [Nat.cast_sub hm, Nat.cast_one]
+
+/-- `betas[i]` computed by `ProbMinHash2::new` is the mean of the gap after the point of rank `i` (`Laws.gapMean m (i+1)`) -/
+theorem pmh2Beta_eq {m i : ℕ} (hi : i + 1 < m) : (Gen.pmh2Beta m i : ℝ) = Laws.gapMean m (i + 1) := by
+  rw [Laws.gapMean_eq hi]
+  unfold Gen.pmh2Beta
+  have h1 : i ≤ m := by omega
+  have h2 : 1 ≤ m - i := by omega
+  simp only [Nat.cast_sub h2, Nat.cast_sub h1, Nat.cast_one]
+  push_cast
+  ring_nf
 
 end PMH.GenEq
